@@ -621,9 +621,9 @@ pub const UNICODE_WHITE_SPACE: [char; 25] = [
 ];
 
 /// A one-character alphabet defined by rule rather than by list: every printable ASCII character,
-/// the upper half of Latin-1, every Unicode white-space character except LF and CR, and for every
+/// the upper half of Latin-1, every Unicode white-space character except LF and CR, for every
 /// character that means something to the scanner the characters of eight other planes that share
-/// its low byte.
+/// its low byte, and the characters that do not show (`invisible_chars`).
 pub fn wide_chars() -> Vec<char> {
     let mut chars: Vec<char> = (0x21u32..0x7f).filter_map(char::from_u32).collect();
     chars.extend((0xa0u32..0x100).filter_map(char::from_u32));
@@ -635,6 +635,9 @@ pub fn wide_chars() -> Vec<char> {
             }
         }
     }
+    // ... and the characters that do not show (byte order mark, zero-width characters, directional marks,
+    // C0 / C1 controls other than LF and CR)
+    chars.extend(invisible_chars().into_iter().filter(|c| !matches!(c, '\n' | '\r')));
     chars.sort();
     chars.dedup();
     chars
